@@ -1,5 +1,6 @@
 // C14 harness: runaway / over-deep scripts on the real engine.
-//   case <id> <prot> <warn> <err> <dbg> <limit> <nest> <step>
+//   case <id> <prot> <warn> <err> <dbg> <limit> <nest> <step> [<x>]   x: bit 0 = a Verbose stream is attached,
+//                     bit 1 = the Output stream is NOT attached (println markers are then not observable: out=~)
 //   ops:  S <stmt>*   host ExecuteThread of a fresh script; stmt: k<n> n plain instructions |
 //                     p<m> println | w<ms> wait | f `error "f"` (script warning) | a `error "f" 1`
 //                     (script abort) | c( <stmt>* ) `thread label` | l<kind> endless loop
@@ -102,10 +103,12 @@ int main()
     mfuse::verif::clockHook = &stepClock;
     mfuse::verif::vmStepHook = &stepHook;
     return vh::caseLoop([](const std::string& id, const std::string& header, const std::vector<std::string>& ops) {
-        int prot = 0, warn = 1, err = 1, dbg = 1, limit = 0, nest = 20, step = 1;
-        { std::istringstream hs(header); hs >> prot >> warn >> err >> dbg >> limit >> nest >> step; }
+        int prot = 0, warn = 1, err = 1, dbg = 1, limit = 0, nest = 20, step = 1, x = 0;
+        { std::istringstream hs(header); hs >> prot >> warn >> err >> dbg >> limit >> nest >> step; if (!(hs >> x)) x = 0; }
         g_step = 0;
-        vh::Engine e(warn != 0, err != 0, dbg != 0, true);
+        vh::Engine e(warn != 0, err != 0, dbg != 0, (x & 2) == 0);
+        std::ostringstream verb;
+        if (x & 1) e.ctx->GetOutputInfo().SetOutputStream(outputLevel_e::Verbose, &verb);
         e.director().GetThreadExecutionProtection().SetLoopProtection(prot != 0);
         e.director().GetThreadExecutionProtection().SetMaxExecutionTime((uinttime_t)limit);
         ScriptExecutionStack::SetMaxStackDepth((size_t)nest);
@@ -147,6 +150,8 @@ int main()
             std::string d;
             for (const std::string& l : e.takeOutput()) { if (!d.empty()) d += ","; d += l; }
             if (d.empty()) d = "-";
+            if (x & 2) d = "~";
+            clearStream(verb);
             std::printf("m %s dt=%lld curnull=%d depth0=%d out=%s waiting=%d w=%zu e=%zu d=%zu n=%ld\n", oc,
                         (long long)(vh::g_clock - c0), e.director().CurrentThread() == nullptr ? 1 : 0,
                         ScriptExecutionStack::GetStackDepth() == 0 ? 1 : 0, d.c_str(),
